@@ -170,7 +170,8 @@ def snapshot(app, statedir):
     for k, v in app._instance_manager._instances.items():
         b = v.get("instance")
         inst[k] = (id(b), repr(v.get("time")), canon(v.get("timeout")),
-                   canon(getattr(b, "session_state", None)), settings_of(b))
+                   canon(getattr(b, "session_state", None)), settings_of(b),
+                   repr(getattr(b, "_locked", None)))       # read, not called: the call tracer is watching
     files = {}
     for root, _, fns in os.walk(statedir):
         for fn in fns:
@@ -195,6 +196,7 @@ def describe_change(a, b):
         if x[2] != y[2]: out.append("instance timeout changed")
         if x[3] != y[3]: out.append("session state changed (begun / advanced / ended / locked)")
         if x[4] != y[4]: out.append("scenario settings of an instance changed")
+        if x[5] != y[5]: out.append("lock flag of an instance changed")
     if a["server_bptk"] != b["server_bptk"]:
         out.append("scenario settings of the server-level bptk changed")
     fa, fb = a["state_dir"], b["state_dir"]
@@ -264,7 +266,10 @@ class World:
         Returns (status, reached, change-list)."""
         path = self.path_of(rule, id_name, slash)
         headers = list(lines) if lines is not None else ({} if hdr is None else {"Authorization": hdr})
-        kw = {"json": body} if body is not None else {}
+        if isinstance(body, tuple):       # ("raw", bytes, content type)
+            kw = {"data": body[1], "content_type": body[2]}
+        else:
+            kw = {"json": body} if body is not None else {}
         self.reach.hit = False
         try:
             resp = self.client.open(path, method=method, headers=headers, **kw)
@@ -363,7 +368,8 @@ def enc(s):
 
 
 # ------------------------------------------------------------------ probe: the credential comparison
-EXPECTED_TOKENS = [TOKEN, "a", "ab", "aaaa", "Tok-1.2_3", "t\u00f6k\u00e9n", ""]
+EXPECTED_TOKENS = [TOKEN, "a", "ab", "aaaa", "Tok-1.2_3", "t\u00f6k\u00e9n", "", "0", "None"]
+ABSENT_ROWS = []     # (configured token, view reached without any Authorization header?, status) — filled by probe_compare
 
 
 def presented_for(e):
@@ -381,6 +387,11 @@ def presented_for(e):
 
 
 def probe_compare():
+    del ABSENT_ROWS[:]
+    return _probe_compare()
+
+
+def _probe_compare():
     """(presented, expected, accepted?) triples from the real decorator: a server configured with `expected`,
     `GET <protected rule>` with `Authorization: "Bearer " + presented` through the test client; accepted = the
     view's inner function was entered."""
@@ -401,6 +412,29 @@ def probe_compare():
                 except Exception:
                     st = 599
                 triples.append((p, e, bool(reach.hit), st))
+            reach.hit = False
+            try:
+                r = c.get("/scenarios"); st = r.status_code; r.close()
+            except Exception:
+                st = 599
+            ABSENT_ROWS.append((e, bool(reach.hit), st))       # a falsy token ("" / "0") is still a configured token
+        finally:
+            reach.close()
+    # two servers alive in one process, each with its own token: the token of the other one is not this one's
+    t1, t2 = "token-of-server-1", "token-of-server-2"
+    app1 = BptkServer("c15two1", factory, None, t1); app1.logger.disabled = True
+    app2 = BptkServer("c15two2", factory, None, t2); app2.logger.disabled = True
+    for app, own, other in ((app1, t1, t2), (app2, t2, t1), (app1, t1, t2)):
+        reach = Reach(app)
+        try:
+            for p in (other, own, other):
+                reach.hit = False
+                try:
+                    r = app.test_client().get("/scenarios", headers={"Authorization": "Bearer " + p}); st = r.status_code; r.close()
+                except Exception:
+                    st = 599
+                if (p, own) not in [(a, b) for a, b, _, _ in triples]:
+                    triples.append((p, own, bool(reach.hit), st))
         finally:
             reach.close()
     return triples
@@ -834,7 +868,7 @@ def case_plan(chk, table, world):
                         bodies = [True, False]
                     for b in bodies:
                         plan.append((i, m, idn, name, hdr, b, False))
-                if not chk.quick and allowed:
+                if allowed and (not chk.quick or idn == idns[0]):
                     plan.append((i, m, idn, "absent", None, True, True))
                     plan.append((i, m, idn, "wrong", "Bearer not-the-token", True, True))
     return plan
@@ -919,6 +953,98 @@ def header_line_stream(chk, w, state, table, out):
     return w, n
 
 
+BODY_KINDS = [("malformed-json", ("raw", b'{"settings": {"firstManager": ', "application/json")),
+              ("form", ("raw", b"numberSteps=2&instances=2&timeout=5", "application/x-www-form-urlencoded")),
+              ("text", ("raw", b"scenario_managers=firstManager", "text/plain")),
+              ("json-list", ("raw", b"[1, 2, 3]", "application/json")),
+              ("big-json", ("raw", json.dumps(dict(UNION_BODY, pad="x" * 200_000)).encode(), "application/json"))]
+
+
+def body_kind_stream(chk, w, state, table, out):
+    """bodies that are not the union JSON object (malformed JSON, form, text, a JSON list, 200 kB): a refused request is
+    refused before its body matters"""
+    req_lines, real_lines, ctx, findings, dist = out
+    n = 0
+    for ti, r in enumerate(table):
+        if r["static"]:
+            continue
+        for m in [x for x in r["methods"] if x in ("POST", "PUT")]:
+            for idn in (["UNKNOWN", "SESSION"] if "<" in r["rule"] else ["UNKNOWN"]):
+                for bname, body in BODY_KINDS:
+                    for name, hdr in (("absent", None), ("wrong", "Bearer not-the-token")):
+                        status, reached, changes = w.request(r["rule"], m, idn, hdr, body)
+                        n += 1
+                        req_lines.append("req %d %s %s %s" % (ti, m, "absent" if hdr is None else enc(hdr), enc("x.txt")))
+                        real_lines.append("view" if reached else str(status))
+                        case = {"state": state, "rule": r["rule"], "method": m, "instance": idn, "shape": name, "header": hdr,
+                                "body": "kind:" + bname, "trailing_slash": False}
+                        ctx.append(case)
+                        chk.case(("body", r["rule"], m, idn, bname, name), nontrivial=r["rule"] not in PUBLIC)
+                        dist["by_body"]["kind:" + bname] = dist["by_body"].get("kind:" + bname, 0) + 1
+                        key = classify(r["rule"], m, False, status, reached, changes)
+                        if key and key not in findings:
+                            findings[key] = (f"{m} {r['rule']} (instance {idn}) with a {bname} body and Authorization {'absent' if hdr is None else repr(hdr)} -> HTTP {status}, "
+                                             f"view reached: {reached}, state changes: {changes or 'none'}",
+                                             dict(case, status=status, reached=reached, changes=changes, token=TOKEN))
+                        if changes:
+                            w.close(); w = World(state); dist["rebuilds"] += 1
+    return w, n
+
+
+def no_adapter_stream(chk, table, out):
+    """a server WITHOUT external state adapter (the handlers' `if adapter != None` branches): every rule x allowed method
+    x {no header, wrong token} on an unknown id and on a live session"""
+    from BPTK_Py.server import BptkServer
+    req_lines, real_lines, ctx, findings, dist = out
+    d = scratch_dir("bptkc15na")
+    app = BptkServer("c15noadapter", factory, None, TOKEN)
+    app.logger.disabled = True
+    c = app.test_client()
+    H = auth_hdr(TOKEN)
+    u = json.loads(c.post("/start-instance", json={"timeout": UNION_BODY["timeout"]}, headers=H).data)["instance_uuid"]
+    c.post(f"/{u}/begin-session", json={k: UNION_BODY[k] for k in ("scenario_managers", "scenarios", "equations")}, headers=H)
+    reach = Reach(app)
+    base = snapshot(app, d)
+    n = 0
+    try:
+        for ti, r in enumerate(table):
+            if r["static"]:
+                continue
+            for m in r["methods"]:
+                for idn, ident in ((("UNKNOWN", "0123456789abcdef0123456789abcdef"), ("SESSION", u)) if "<" in r["rule"] else (("UNKNOWN", ""),)):
+                    for name, hdr in (("absent", None), ("wrong", "Bearer not-the-token")):
+                        path = re.sub(r"<[^>]*>", ident, r["rule"])
+                        reach.hit = False
+                        try:
+                            resp = c.open(path, method=m, headers={} if hdr is None else {"Authorization": hdr}, json=UNION_BODY)
+                            status = resp.status_code
+                            try:
+                                resp.get_data()
+                            finally:
+                                resp.close()
+                        except Exception:
+                            status = 599
+                        n += 1
+                        changes = describe_change(base, snapshot(app, d))
+                        req_lines.append("req %d %s %s %s" % (ti, m, "absent" if hdr is None else enc(hdr), enc("x.txt")))
+                        real_lines.append("view" if reach.hit else str(status))
+                        case = {"state": "no-adapter", "rule": r["rule"], "method": m, "instance": idn, "shape": name, "header": hdr}
+                        ctx.append(case)
+                        chk.case(("no-adapter", r["rule"], m, idn, name), nontrivial=r["rule"] not in PUBLIC)
+                        key = classify(r["rule"], m, False, status, bool(reach.hit), changes)
+                        if key and key not in findings:
+                            findings[key] = (f"server without state adapter: {m} {r['rule']} (instance {idn}) with Authorization {'absent' if hdr is None else repr(hdr)} -> HTTP {status}, "
+                                             f"view reached: {bool(reach.hit)}, state changes: {changes or 'none'}",
+                                             dict(case, status=status, reached=bool(reach.hit), changes=changes, token=TOKEN, no_failing_replay=True))
+                        if changes:
+                            base = snapshot(app, d)
+    finally:
+        reach.close()
+        shutil.rmtree(d, ignore_errors=True)
+    dist["by_state"]["no-adapter"] = n
+    return n
+
+
 CONTROLS = [
     ("/run", "POST", "UNKNOWN", ["scenario settings of the server-level bptk changed"]),
     ("/<instance_uuid>/run-step", "POST", "SESSION", ["scenario settings of an instance changed", "session state changed (begun / advanced / ended / locked)",
@@ -978,6 +1104,11 @@ def run(chk):
                     r["prot"] = True
         gen_text, verdict = gen_lean(table, static_files, triples, calls, mrows)
         chk.notes["method_probe"] = [list(x) for x in mrows]
+        chk.notes["tokens_without_header"] = [list(x) for x in ABSENT_ROWS]
+        for e_, reached_, st_ in ABSENT_ROWS:
+            if (reached_ or st_ < 400) and "served-without-token" not in findings:
+                findings["served-without-token"] = (f"server configured with bearer token {e_!r}: GET /scenarios without Authorization header -> HTTP {st_}, view reached: {reached_}",
+                                                    {"probe": "compare", "expected": e_, "presented": None, "status": st_, "rule": "/scenarios", "method": "GET"})
         chk.notes["call_order_probe"] = {"rows": len(calls), "programs": sorted({(r["rule"], r["method"], " > ".join(r["accepted"][:4])) for r in calls})[:80]}
         for r in calls:      # reference: a refused request must not enter any state-touching function
             if r["rule"] in PUBLIC:
@@ -1033,7 +1164,7 @@ def run(chk):
                 findings["wrong-credential-accepted"] = (
                     f"server configured with bearer token {e_!r}: GET /scenarios with Authorization {'Bearer ' + p_!r} -> HTTP {st_}, view reached",
                     {"probe": "compare", "expected": e_, "presented": p_, "status": st_, "rule": "/scenarios", "method": "GET"})
-        dist = {"by_state": {}, "by_shape": {}, "by_method": {}, "status": {}, "reached": 0, "refused": 0, "rebuilds": 0}
+        dist = {"by_state": {}, "by_shape": {}, "by_method": {}, "by_instance_id": {}, "by_body": {}, "trailing_slash": 0, "status": {}, "reached": 0, "refused": 0, "rebuilds": 0}
         n_req = 0
         with contextlib.redirect_stdout(sink):
             for state in STATES:
@@ -1055,8 +1186,10 @@ def run(chk):
                         ctx.append(case)
                         chk.case((state, r["rule"], m, idn, name, with_body, slash), nontrivial=not pres and r["rule"] not in PUBLIC,
                                  sample=dict(case, status=status, reached=reached) if (n_req % 997 == 1) else None)
-                        for k, v in (("by_state", state), ("by_shape", name), ("by_method", m), ("status", str(status))):
+                        for k, v in (("by_state", state), ("by_shape", name), ("by_method", m), ("status", str(status)), ("by_instance_id", idn),
+                                     ("by_body", "union-json" if with_body else "none")):
                             dist[k][v] = dist[k].get(v, 0) + 1
+                        dist["trailing_slash"] += bool(slash)
                         dist["reached"] += reached
                         dist["refused"] += (not reached and status >= 400)
                         key = classify(r["rule"], m, pres, status, reached, changes)
@@ -1098,8 +1231,11 @@ def run(chk):
                                     w.close(); w = World(state); dist["rebuilds"] += 1
                         w, k = header_line_stream(chk, w, state, table, (req_lines, real_lines, ctx, findings, dist))
                         n_req += k
+                        w, k = body_kind_stream(chk, w, state, table, (req_lines, real_lines, ctx, findings, dist))
+                        n_req += k
                 finally:
                     w.close()
+            n_req += no_adapter_stream(chk, table, (req_lines, real_lines, ctx, findings, dist))
             controls = reference_controls()
         chk.notes["state_reference_controls"] = controls
         blind = [c for c in controls if c["status"] < 400 and c["missing"]]
@@ -1164,12 +1300,15 @@ def replay(path):
             with contextlib.redirect_stdout(sink):
                 app = BptkServer("c15cmp", factory, None, r["expected"])
                 app.logger.disabled = True
-                resp = app.test_client().get("/scenarios", headers={"Authorization": "Bearer " + r["presented"]})
+                if r["presented"] is not None:      # as in the probe: another server, configured with the presented word, is alive in the process
+                    other = BptkServer("c15cmp2", factory, None, r["presented"])
+                    other.logger.disabled = True
+                resp = app.test_client().get("/scenarios", headers={} if r["presented"] is None else {"Authorization": "Bearer " + r["presented"]})
                 st = resp.status_code
         finally:
             destroy_all()
         bad = st < 400 and r["presented"] != r["expected"]
-        print(f"token {r['expected']!r} configured, GET /scenarios with Authorization {'Bearer ' + r['presented']!r}: HTTP {st} -> "
+        print(f"token {r['expected']!r} configured, GET /scenarios with Authorization {('Bearer ' + r['presented']) if r['presented'] is not None else None!r}: HTTP {st} -> "
               + ("served without the token" if bad else "refused correctly"))
         return 1 if bad else 0
     if r.get("probe") == "calls":
